@@ -23,7 +23,7 @@ import time
 import traceback
 
 from . import known
-from .core import VERIF, HarnessError, canon_hash, read_replay, run_seed, write_replay
+from .core import VERIF, HarnessError, Violation, canon_hash, read_replay, run_seed, write_replay
 
 PY = sys.executable
 CLI = os.path.join(VERIF, "sim", "cli.py")
@@ -51,6 +51,8 @@ def _safe_run(mod, case, keep_log=False):
     by an oracle is a harness error, reported apart from property violations."""
     try:
         return mod.run_case(case, keep_log=keep_log)
+    except Violation as v:  # raised outside the module's own handler (e.g. by the constructor)
+        return {"violation": v.to_json(), "digest": "", "stats": {}}
     except HarnessError as e:
         return {"harness_error": f"HarnessError: {e}", "violation": None, "digest": "", "stats": {}}
     except MemoryError:
@@ -351,7 +353,10 @@ def run(prop, tier, seed, n_override=None):
     }
     if replay_path:
         ev["coverage"]["replay"] = replay_path
-    if exit_code != 2:
+    from .core import REPO
+    if os.path.realpath(REPO) != "/repo":
+        print(f"note: VERIF_REPO={REPO} is a scratch tree: evidence file not written")
+    elif exit_code != 2:
         os.makedirs(os.path.join(VERIF, "evidence"), exist_ok=True)
         p = os.path.join(VERIF, "evidence", f"{prop}.json")
         with open(p + ".tmp", "w") as f:
